@@ -165,7 +165,7 @@ func checkC19(r *core.Run) {
 	// BEFORE the record is pointed at the new file (loadrec reads rec.DataSeq / rec.datpos)
 	if df := q("(*DB).defrag"); df != nil {
 		var cb *ssa.Function
-		for _, f := range df.AnonFuncs {
+		for _, f := range an.WithClosures(df)[1:] {
 			if len(an.CallsTo(f, false, "(*lib/others/qdb.DB).loadrec")) > 0 {
 				cb = f
 			}
@@ -694,7 +694,7 @@ func c19CleanupSpares(r *core.Run, p *core.Program) {
 	}
 	n := 0
 	var bad []string
-	for _, f := range append([]*ssa.Function{fn}, fn.AnonFuncs...) {
+	for _, f := range an.WithClosures(fn) {
 		for _, c := range an.CallsTo(f, false, "os.Remove") {
 			n++
 			cs := an.DomConds(c.(ssa.Instruction).Block())
